@@ -1,5 +1,6 @@
 import Got.Drv.Common
 import Got.Model.Wheel
+import Got.Model.WheelGen
 /-
 drv_wheel — driver of the wheel model (property C03).  Monitor protocol: every input line is
 `<script>\t<impl observation>`; the answer is `ok` or `reject <why>`.   (`drv_wheel run`: input = script
@@ -193,6 +194,164 @@ def raceLine (ws : List String) : Option String :=
     | _, _, _, _ => none
   | _ => none
 
+
+/-! ### `ast` mode: race lines replayed on the LTS GENERATED from the source (Got/Model/WheelGen.lean)
+
+States are `AtomicIR.GState`s, steps are `WheelGen.tickG` / `invokeG` / `reqG`; the log entry of a step is derived from the
+access `AtomicIR.exec` reports.  The hook site of an access kind is a convention of loom/verif_on.go (3 load position,
+4 load slot, 5 swap slot, 6 store position, 7 close).  The tick counters (`adv` = position stores, `cls` = closes seen) and
+the tick that closed each channel are bookkeeping of this observer, like in the harness. -/
+namespace Ast
+open Got.Model.AtomicIR Got.Model.WheelGen
+
+structure GRec where
+  tid : Nat
+  invCls : Nat
+  invAdv : Nat
+  retCls : Nat
+  retAdv : Nat
+  chan : Nat
+
+structure GSim where
+  g : GState
+  n : Nat
+  step : Nat
+  thr : Array Thr
+  log : Array String := #[]
+  chans : Array Nat := #[]
+  adv : Nat := 0
+  cls : Nat := 0
+  closedAt : List (Nat × Nat) := []       -- channel, tick
+  inv : Array (Nat × Nat) := #[]          -- per thread: (cls, adv) at the invocation of its pending request
+  recs : Array GRec := #[]                -- completed requests, oldest first
+
+def entryOf (t : Nat) : Option Tok → String
+  | some ⟨false, .pos, _⟩ => s!"{t}.3.p"
+  | some ⟨true, .pos, _⟩ => s!"{t}.6.p"
+  | some ⟨false, .slot i, _⟩ => s!"{t}.4.s{i}"
+  | some ⟨true, .slot i, _⟩ => s!"{t}.5.s{i}"
+  | some ⟨_, .chan c, _⟩ => s!"{t}.7.c{c}"
+  | _ => s!"{t}.?"
+
+def tokOf (g : GState) (t : Nat) : Option Tok := (stepThread noPred g.mem (g.conf t)).bind (·.tok)
+
+def gIdle (c : Config) : Bool := Got.Model.AtomicIR.isIdle c
+
+def gInvokeNext (sim : GSim) (t : Nat) : GSim :=
+  match sim.thr[t]? with
+  | none => sim
+  | some th =>
+    if th.next ≥ th.ops.size then
+      { sim with thr := sim.thr.set! t { th with finished := true } }
+    else
+      let op := th.ops[th.next]!
+      let base := match op with | .new d => d | .after d => d | .reset _ => th.base
+      let d := match op with | .new d => d | .after d => d | .reset arg => Got.Model.Wheel.resetInterval sim.step base arg
+      let g' := invokeG sim.n sim.step sim.g t d
+      if gIdle (g'.conf (t + 1)) then
+        -- the call returned in its local prefix: it panicked (range check); the thread ends
+        { sim with g := g',
+                   thr := sim.thr.set! t { th with base := base, finished := true,
+                                                    results := th.results.push s!"T{t}.{th.next}=P" } }
+      else
+        { sim with g := g', thr := sim.thr.set! t { th with base := base }, inv := sim.inv.set! t (sim.cls, sim.adv) }
+
+def gToken (sim : GSim) (t : Nat) : GSim :=
+  if t = 0 then
+    let g1 := if gIdle (sim.g.conf 0) then Got.Model.AtomicIR.step prog noPred sim.g (.inv 0 1 [.int sim.n]) else sim.g
+    let tk := tokOf g1 0
+    let sim := { sim with log := sim.log.push (entryOf 0 tk), g := tickG sim.n sim.g }
+    match tk with
+    | some ⟨true, .pos, _⟩ => { sim with adv := sim.adv + 1 }
+    | some ⟨_, .chan c, _⟩ => { sim with cls := sim.cls + 1, closedAt := (c, sim.cls + 1) :: sim.closedAt }
+    | _ => sim
+  else
+    match sim.thr[t]? with
+    | none => sim
+    | some th =>
+      if th.finished then sim
+      else if !th.started then
+        let sim := { sim with log := sim.log.push s!"{t}.start", thr := sim.thr.set! t { th with started := true } }
+        gInvokeNext sim t
+      else
+        let e := if gIdle (sim.g.conf (t + 1)) then s!"{t}.idle" else entryOf t (tokOf sim.g (t + 1))
+        let g' := reqG sim.g t
+        let sim := { sim with log := sim.log.push e, g := g' }
+        if gIdle (g'.conf (t + 1)) then
+          match g'.hist.getLast? with
+          | some (_, .ret (some (.ptr (some c)))) =>
+            let op := th.ops[th.next]!
+            let (ic, ia) := sim.inv[t]!
+            let res := s!"T{t}.{th.next}=i{ic}/{ia},r{sim.cls}/{sim.adv},{showChan op c},f"
+            let th := { th with next := th.next + 1, results := th.results.push res }
+            gInvokeNext { sim with thr := sim.thr.set! t th, chans := sim.chans.push c,
+                                   recs := sim.recs.push ⟨t, ic, ia, sim.cls, sim.adv, c⟩ } t
+          | _ => sim
+        else sim
+
+def gThreadFinished (sim : GSim) (t : Nat) : Bool :=
+  match sim.thr[t]? with
+  | none => true
+  | some th => th.finished
+
+def gFinishThread (sim : GSim) (t : Nat) : Nat → GSim
+  | 0 => sim
+  | fuel + 1 => if gThreadFinished sim t then sim else gFinishThread (gToken sim t) t fuel
+
+def gAllClosed (sim : GSim) : Bool := sim.chans.all (fun c => sim.g.mem.closed c)
+
+def gTickUntilClosed (sim : GSim) : Nat → GSim
+  | 0 => sim
+  | fuel + 1 => if gAllClosed sim then sim else gTickUntilClosed (gToken sim 0) fuel
+
+def gFireStr (sim : GSim) (r : GRec) (isAfter : Bool) : String :=
+  match sim.closedAt.lookup r.chan with
+  | some j => toString (if isAfter then max j r.retCls else j)
+  | none => "never"
+
+def gRenderResults (sim : GSim) : List String := Id.run do
+  let mut out : List String := []
+  for t in [1:sim.thr.size] do
+    let th := sim.thr[t]!
+    let mine := sim.recs.toList.filter (fun r => r.tid = t)
+    let mut j := 0
+    for res in th.results do
+      if res.endsWith ",f" then
+        match mine[j]? with
+        | some r => out := out ++ [res ++ gFireStr sim r ((res.splitOn ",c-,").length > 1)]
+        | none => out := out ++ [res ++ "?"]
+        j := j + 1
+      else
+        out := out ++ [res]
+  return out
+
+def runRace (n step : Nat) (opss : List (List Op)) (sched : List Nat) : String :=
+  let thr : Array Thr := #[{ ops := #[] }] ++ (opss.map (fun o => ({ ops := o.toArray } : Thr))).toArray
+  let sim : GSim := { g := genInit n, n := n, step := step, thr := thr, inv := Array.replicate thr.size (0, 0) }
+  let sim := sched.foldl gToken sim
+  let sim := { sim with log := sim.log.push "/" }
+  let sim := (List.range thr.size).foldl (fun sim t => if t = 0 then sim else gFinishThread sim t 100000) sim
+  let sim := gTickUntilClosed sim (4 * (2 * n + 4))
+  joinSp (sim.log.toList ++ ["|"] ++ gRenderResults sim)
+
+def raceLine (ws : List String) : Option String :=
+  let (head, sched) := splitBar ws
+  match head with
+  | n :: st :: ops =>
+    match parseNat? n, parseNat? st, ops.mapM parseOps, sched.mapM parseNat? with
+    | some n, some st, some opss, some sched =>
+      if n = 0 ∨ st = 0 then none else some (runRace n st opss sched)
+    | _, _, _, _ => none
+  | _ => none
+
+/-- `drv_wheel ast`: script lines in, for race lines the generated LTS's own line out; other lines `not-translated` -/
+def runLine (line : String) : String :=
+  match words line with
+  | "race" :: ws => (raceLine ws).getD "bad-line"
+  | _ => "not-translated"
+
+end Ast
+
 /-! ### timing mode -/
 
 structure Prog where
@@ -379,6 +538,8 @@ def runOnly (_ : Unit) (line : String) : Unit × String :=
 def main (args : List String) : IO Unit := do
   if args = ["run"] then
     lineLoop (← IO.getStdin) (← IO.getStdout) runOnly ()
+  else if args = ["ast"] then
+    lineLoop (← IO.getStdin) (← IO.getStdout) (fun (_ : Unit) l => ((), Ast.runLine l)) ()
   else
     lineLoop (← IO.getStdin) (← IO.getStdout) monitor ()
 
